@@ -291,8 +291,14 @@ func (c *caseRun) oracle(kind string, obs []objObs, del []int) {
 			if kind == "run" && po.entry && po.status > 0 && o.status == 0 {
 				c.violate("", "children_follow", fmt.Sprintf("after a deletion worker run child %d of tombstoned parent %d (status %d) is not queued", k, par, po.status))
 			}
-			if kind == "restart" && po.entry && po.status == int(headstorage.DeletedStatusDeleted) && o.status == 0 {
-				c.violate("", "children_follow", fmt.Sprintf("after restart child %d of deleted parent %d is not queued", k, par))
+			// in every state, after every step — faulted worker passes, crashes and restarts included: a bound
+			// child of a Deleted parent is tombstoned, and a bound child that is still NotDeleted has a parent
+			// whose tree is stored (what keeps a storage-faulted pass from orphaning it)
+			if po.entry && po.status == int(headstorage.DeletedStatusDeleted) && o.status == 0 {
+				c.violate("", "children_follow", fmt.Sprintf("after %s child %d of deleted parent %d is not queued", kind, k, par))
+			}
+			if o.status == 0 && !po.stored {
+				c.violate("", "children_follow", fmt.Sprintf("after %s child %d is NotDeleted but its parent %d has no stored tree (entry=%v status=%d)", kind, k, par, po.entry, po.status))
 			}
 		}
 		if kind == "run" && o.entry && o.status > 0 && o.mirror != '-' && o.stored {
